@@ -17,13 +17,16 @@ for m in muts:
     try:
         overlay = {"Replace": {}}
         ok = True
+        texts = {}
         for i, ch in enumerate(m["changes"]):
             src = os.path.join("/repo", ch["file"])
-            text = open(src).read()
+            text = texts.get(src) or open(src).read()
             if text.count(ch["old"]) != 1:
                 print(f"{m['name']}: pattern occurs {text.count(ch['old'])} times in {ch['file']}"); ok = False; break
+            texts[src] = text.replace(ch["old"], ch["new"])
+        for i, (src, text) in enumerate(texts.items()):
             dst = os.path.join(scratch, f"f{i}.go")
-            open(dst, "w").write(text.replace(ch["old"], ch["new"]))
+            open(dst, "w").write(text)
             overlay["Replace"][src] = dst
         if not ok:
             results.append((m["name"], "BADPATTERN")); continue
